@@ -121,6 +121,8 @@ var (
 
 // gen holds generation state for one schema.
 type gen struct {
+	wrapSeq int
+
 	dupShort map[string]bool
 
 	stratum int // schema index, drives stratified feature choice
@@ -1427,6 +1429,11 @@ func simpleSiblings(m *Message) bool {
 func (g *gen) unwrapScalarKind() Kind {
 	if g.avoid("unwrap_scalar_json") {
 		return pick(g, []Kind{KString, KBool, KInt32, KUint32, KSint32, KFixed32, KSfixed32, KBytes, KString}, "unwrapkind")
+	}
+	if g.p.Stratified {
+		// every scalar kind in turn: the emitted element decoders have one branch per kind
+		g.wrapSeq++
+		return ScalarKinds[(g.stratum*5+g.wrapSeq)%len(ScalarKinds)]
 	}
 	return g.scalarKind()
 }
